@@ -299,6 +299,36 @@ func runC01(r *core.Run) {
 			return core.Outcome{Class: fmt.Sprint("len%80=", min(c.Len%80, 2), " ", c.Layout), Nontrivial: c.Len >= 2, Evals: 2}
 		})
 
+	r.Bound("lengths-by-content", "sequence (and name) of every length 0..400, 4095..4097, 65535..65537 made of each content class (2-byte UTF-8, mixed 1-4-byte UTF-8 incl. U+2028 and BOM, invalid high bytes, percent verbs, quotes/backslashes, UTF-8 cut mid-rune)")
+	core.Clause(r, "lengths-by-content", core.Opts{Rule: "content class x length: the record is written (lines of at most 80 BYTES, MarshalText == Write) and read back, a second record follows; non-trivial = length >= 2"},
+		func(emit func(c01Len) bool) {
+			var ls []int
+			for l := 0; l <= 400; l++ {
+				ls = append(ls, l)
+			}
+			ls = append(ls, 4095, 4096, 4097, 65535, 65536, 65537)
+			for _, cl := range contentClassNames {
+				for _, l := range ls {
+					if !emit(c01Len{l, cl}) {
+						return
+					}
+				}
+			}
+		},
+		func(c c01Len) core.Outcome {
+			seq := contentOf(c.Layout, c.Len, "\r\n>")
+			name := contentOf(c.Layout, min(c.Len, 300), "\r\n")
+			recs := []faRec{{core.S(name), core.S(seq)}, {"second", "GG"}}
+			data, fail := writeFastaChecked(recs)
+			if fail != "" {
+				return core.Failf("content class %s: %s", c.Layout, fail)
+			}
+			if out := checkFastaRead(data, recs, fmt.Sprintf("content class %s, length %d", c.Layout, c.Len)); out.Fail != "" {
+				return out
+			}
+			return core.Outcome{Class: c.Layout, Nontrivial: c.Len >= 2, Evals: 3}
+		})
+
 	r.Bound("marked-offsets", "a long name or sequence (8300 bytes: every offset; 70000 bytes: offsets 0..3, 4090..4100, 65530..65540, last 3) with ONE byte of the format's vocabulary ('>', ';' quick; thorough also ' ', TAB, '@', '+', 0x00, 0xFF) at that offset; followed by a second record")
 	core.Clause(r, "marked-offsets", core.Opts{Rule: "a format-vocabulary byte at EVERY offset of a long name (names may hold '>') and of a long sequence (never '>'), so that it meets every internal buffer boundary of the reader; written with Write, read back, second record must follow unshifted; non-trivial = all"},
 		func(emit func(c01Mark) bool) {
